@@ -121,13 +121,12 @@ theorem wire_types_match (data rest : Bytes) (x : Nat) (h : decodeVarint data = 
 /-- the hypothesis of `wire_types_match` is satisfiable: a fixed64 field (key 9 = field 1, type 1) -/
 example : decodeVarint [9, 1, 2, 3, 4, 5, 6, 7, 8] = .ok (9, [1, 2, 3, 4, 5, 6, 7, 8]) := by decide
 
-/-- The source shape of those proto.go facts: `if len(x) > N`, `if i >= N || i >= len(data)`, and a
-`default:` branch of `switch b.typ` that returns an error. -/
-theorem proto_source_shape :
-    protoShapeOf Gen.CodecSchema.proto = expectedProtoShape Gen.CodecSchema.proto := by
+/-- `switch b.typ` of proto.go decodeField ends in a `default:` branch that returns an error (the
+model's `| _ => .err "unknown wire type"`). -/
+theorem unknown_wire_type_is_error : Gen.CodecSchema.proto.defaultRejects = true := by
   first
   | decide
-  | fail "OBLIGATION proto_source_shape no longer holds: the guards of proto.go encodeUint64s/encodeInt64s/decodeVarint/decodeField no longer have the shape `len(x) > N`, `i >= N || i >= len(data)`, `default: return nil, err`"
+  | fail "OBLIGATION unknown_wire_type_is_error no longer holds: the default branch of `switch b.typ` in proto.go decodeField does not return an error"
 
 /-- The model interns the strings of the probe profile in the order of `internSites`. -/
 theorem intern_order_model : internTable probe = some (internSites.map (·.marker)) := by
@@ -142,15 +141,18 @@ theorem intern_order_matches : Gen.CodecSchema.internOrder = expectedInternOrder
   | decide
   | fail "OBLIGATION intern_order_matches no longer holds: preEncode of profile/encode.go no longer calls addString in the model's order (or under other loops/conditions)"
 
-/-- postDecode builds one dense id table per entity table, of the length the model
-(`IdTables.build`) uses, and indexes them only under `if id < uint64(len(table))`. -/
-theorem dense_tables_match :
-    ∃ extra, Gen.CodecSchema.denseTables = expectedDenseTables extra ∧
+/-- postDecode's dense id tables, WHEN the translator recognises the id-table code (inline slices or
+one generic helper type): one per entity table, of the length the model (`IdTables.build`) uses, and
+no index expression on them outside `if id < uint64(len(table))`.  (`denseTables = none`: the code has
+another shape; then only the dynamic correspondence and C02's `postDecode_id_tables_total` speak.) -/
+theorem dense_tables_match (ts : List Gen.CodecSchema.DenseTable)
+    (h : Gen.CodecSchema.denseTables = some ts) :
+    ∃ extra, ts = expectedDenseTables extra ∧
       ∀ ids : List Nat, IdTables.build ids =
-        IdTables.buildGo { dense := List.replicate (ids.length + extra) none, sparse := [] } 0 ids :=
-  ⟨1, by first
-         | decide
-         | fail "OBLIGATION dense_tables_match no longer holds: postDecode's dense id tables are not `make([]*T, len(p.T)+1)` for Mapping, Function, Location with two guarded index expressions each",
-   fun _ => rfl⟩
+        IdTables.buildGo { dense := List.replicate (ids.length + extra) none, sparse := [] } 0 ids := by
+  unfold Gen.CodecSchema.denseTables at h
+  first
+  | (cases h <;> exact ⟨1, by decide, fun _ => rfl⟩)
+  | fail "OBLIGATION dense_tables_match no longer holds: the dense id tables of postDecode are not one `make([]*T, len(p.T)+1)` each for Mapping, Function, Location, or an index expression on them is not under `id < uint64(len(table))`"
 
 end PV.CodecSchema.Facts
